@@ -255,8 +255,14 @@ fn dce_block_with_live(
                 };
                 // If the type-switch binding variable is not used in any case/default
                 // blocks, drop the binding (switch x := e.(type) -> switch e.(type)).
+                // The binding usually shadows the scrutinee, so "live into the blocks" is not
+                // enough: the scrutinee may merely be used again after the switch.
                 let bind = bind.filter(|bname| {
-                    !(!cases_live_in.contains(bname) && !default_live_in.contains(bname))
+                    new_cases
+                        .iter()
+                        .map(|(_, blk)| blk)
+                        .chain(default_b.iter())
+                        .any(|blk| free_vars_in_block(blk).contains(bname))
                 });
                 add_uses_expr(&mut live, &expr);
                 live.extend(cases_live_in);
